@@ -126,6 +126,13 @@ def gotoCopy (s : St) (lab : Label) : Option (St × Option (Slot × Slot)) :=
         some (s.declare ⟨rt, lab.height⟩, some (⟨rt, lab.height⟩, src))
       else some (s, none)
 
+/-- end of a structured instruction: the result type is pushed and its slot declared -/
+def St.endBlock (sB : St) (h : Nat) (bt : Option VT) (labels : List Label) : St :=
+  let s' : St := { sB with stack := (sB.stack.take h) ++ bt.toList, labels := labels }
+  match bt with
+  | some t => s'.declare ⟨t, h⟩
+  | none => s'
+
 abbrev Err := String
 
 mutual
@@ -243,7 +250,7 @@ def compileInstr (ctx : Ctx) (s : St) : EInstr → Except Err (St × List MStmtC
     let sIn := { s with labels := s.labels ++ [lab], next := s.next + 1 }
     let (sB, outB, deadB) ← compileSeq ctx sIn body
     if !deadB && sB.stack ≠ (s.stack ++ bt.toList) then .error "block: body does not leave the block type (invalid module)" else
-    let sEnd := { sB with stack := (sB.stack.take h) ++ bt.toList, labels := s.labels }
+    let sEnd := sB.endBlock h bt s.labels
     .ok (sEnd, [.block outB lab.index], false)
   | .loop bt body => do
     let h := s.height
@@ -251,7 +258,7 @@ def compileInstr (ctx : Ctx) (s : St) : EInstr → Except Err (St × List MStmtC
     let sIn := { s with labels := s.labels ++ [lab], next := s.next + 1 }
     let (sB, outB, deadB) ← compileSeq ctx sIn body
     if !deadB && sB.stack ≠ (s.stack ++ bt.toList) then .error "loop: body does not leave the block type (invalid module)" else
-    let sEnd := { sB with stack := (sB.stack.take h) ++ bt.toList, labels := s.labels }
+    let sEnd := sB.endBlock h bt s.labels
     .ok (sEnd, [.loop lab.index outB], false)
   | .ite bt thn els => do
     let some c := s.top 0 | .error "if: stack"
@@ -265,13 +272,13 @@ def compileInstr (ctx : Ctx) (s : St) : EInstr → Except Err (St × List MStmtC
     match els with
     | none =>
       if bt.isSome then .error "if: result type without else (invalid module)" else
-      let sEnd := { sT with stack := (sT.stack.take h) ++ bt.toList, labels := s.labels }
+      let sEnd := sT.endBlock h bt s.labels
       .ok (sEnd, [.ifElse c outT none lab.index], false)
     | some els => do
       let sE0 := { sT with stack := sT.stack.take h }
       let (sE, outE, deadE) ← compileSeq ctx sE0 els
       if !deadE && sE.stack ≠ (s0.stack ++ bt.toList) then .error "if: else-branch does not leave the block type (invalid module)" else
-      let sEnd := { sE with stack := (sE.stack.take h) ++ bt.toList, labels := s.labels }
+      let sEnd := sE.endBlock h bt s.labels
       .ok (sEnd, [.ifElse c outT (some outE) lab.index], false)
   | .br l => do
     let some lab := s.label l | .error "br: label"
